@@ -811,50 +811,90 @@ func writeEvidence(c Check, m *Merged, tier string, seed int64, wall float64, nv
 // NewRecForTest creates a record for unit tests of checks.
 func NewRecForTest(id string) *Rec { return newRec(id) }
 
-// procCPU returns the CPU seconds (user+system, including reaped children) consumed by pid.
-func procCPU(pid int) float64 {
-	b, err := os.ReadFile(fmt.Sprintf("/proc/%d/stat", pid))
+// groupPids lists the processes of the process group led by pid (the worker and the helper
+// children it started: workers are started with Setpgid).
+func groupPids(pid int) []int {
+	out := []int{pid}
+	ents, err := os.ReadDir("/proc")
 	if err != nil {
-		return 0
+		return out
 	}
-	t := string(b)
-	i := strings.LastIndexByte(t, ')')
-	if i < 0 {
-		return 0
+	for _, e := range ents {
+		p, err := strconv.Atoi(e.Name())
+		if err != nil || p == pid {
+			continue
+		}
+		b, err := os.ReadFile("/proc/" + e.Name() + "/stat")
+		if err != nil {
+			continue
+		}
+		t := string(b)
+		i := strings.LastIndexByte(t, ')')
+		if i < 0 {
+			continue
+		}
+		f := strings.Fields(t[i+1:])
+		// f[0] = state, f[1] = ppid, f[2] = pgrp
+		if len(f) > 2 && f[2] == strconv.Itoa(pid) {
+			out = append(out, p)
+		}
 	}
-	f := strings.Fields(t[i+1:])
-	// f[0] = state (field 3); utime, stime, cutime, cstime are fields 14..17
-	if len(f) < 15 {
-		return 0
-	}
+	return out
+}
+
+// procCPU returns the CPU seconds (user+system, including reaped children) consumed by the
+// process group led by pid.
+func procCPU(pid int) float64 {
 	var ticks int64
-	for _, k := range []int{11, 12, 13, 14} {
-		v, _ := strconv.ParseInt(f[k], 10, 64)
-		ticks += v
+	for _, p := range groupPids(pid) {
+		b, err := os.ReadFile(fmt.Sprintf("/proc/%d/stat", p))
+		if err != nil {
+			continue
+		}
+		t := string(b)
+		i := strings.LastIndexByte(t, ')')
+		if i < 0 {
+			continue
+		}
+		f := strings.Fields(t[i+1:])
+		// f[0] = state (field 3); utime, stime, cutime, cstime are fields 14..17
+		if len(f) < 15 {
+			continue
+		}
+		for _, k := range []int{11, 12, 13, 14} {
+			v, _ := strconv.ParseInt(f[k], 10, 64)
+			ticks += v
+		}
 	}
 	return float64(ticks) / 100
 }
 
-// noRunnableThread samples the scheduler state of every thread of pid a few times; true if none
-// was ever running, runnable or in uninterruptible I/O (the process is blocked, not starved).
+// noRunnableThread samples the scheduler state of every thread of every process in the worker's
+// process group a few times; true if none was ever running, runnable or in uninterruptible I/O
+// (the worker and its helpers are blocked, not starved or busy).
 func noRunnableThread(pid int) bool {
 	for sample := 0; sample < 8; sample++ {
-		ents, err := os.ReadDir(fmt.Sprintf("/proc/%d/task", pid))
-		if err != nil || len(ents) == 0 {
-			return false
-		}
-		for _, e := range ents {
-			b, err := os.ReadFile(fmt.Sprintf("/proc/%d/task/%s/stat", pid, e.Name()))
+		for _, p := range groupPids(pid) {
+			ents, err := os.ReadDir(fmt.Sprintf("/proc/%d/task", p))
 			if err != nil {
+				if p == pid {
+					return false
+				}
 				continue
 			}
-			t := string(b)
-			i := strings.LastIndexByte(t, ')')
-			if i < 0 || i+2 >= len(t) {
-				return false
-			}
-			if st := t[i+2]; st == 'R' || st == 'D' {
-				return false
+			for _, e := range ents {
+				b, err := os.ReadFile(fmt.Sprintf("/proc/%d/task/%s/stat", p, e.Name()))
+				if err != nil {
+					continue
+				}
+				t := string(b)
+				i := strings.LastIndexByte(t, ')')
+				if i < 0 || i+2 >= len(t) {
+					return false
+				}
+				if st := t[i+2]; st == 'R' || st == 'D' {
+					return false
+				}
 			}
 		}
 		time.Sleep(120 * time.Millisecond)
